@@ -703,6 +703,9 @@ class Gen:
                 i = self.do_fn(toks[1:], i + 1, lines)
             elif d == "impl":
                 i = self.do_impl(toks[1:], i + 1, lines)
+            elif d == "problems":
+                self.do_problems()
+                i += 1
             elif d == "peg":
                 i = self.do_peg(toks[1:], i + 1, lines)
             elif d == "pegguard":
@@ -993,6 +996,25 @@ def _do_pegguard(self, toks, i, lines):
 
 
 Gen.do_pegguard = _do_pegguard
+
+
+def _do_problems(self):
+    """`Problem` is generated by problems/build.rs from problem-codes.csv: regenerate the enum
+    (names) and the code table as a spec function from the same csv."""
+    import csv
+    p = os.path.join(CROOT, "problems", "resources", "problem-codes.csv")
+    if not os.path.exists(p):
+        raise AnchorLost("problem-codes.csv not found")
+    rows = list(csv.reader(open(p, encoding="utf-8")))[1:]
+    rows = [r for r in rows if len(r) >= 2]
+    self.emit("// ---- enum Problem regenerated from problems/resources/problem-codes.csv (as problems/build.rs does)")
+    self.emit("#[derive(PartialEq, Eq, Structural)]\npub enum Problem {\n" + "".join("    %s,\n" % r[1] for r in rows) + "}")
+    self.emit("impl Problem {\n    pub open spec fn code_spec(&self) -> Seq<char> {\n        match self {\n" +
+              "".join("            Problem::%s => \"%s\"@,\n" % (r[1], r[0]) for r in rows) + "        }\n    }\n}")
+    self.notes.append("enum Problem and its code table regenerated from problem-codes.csv")
+
+
+Gen.do_problems = _do_problems
 
 
 def generate(unit_path, out_path, vacuity=False):
